@@ -83,9 +83,9 @@ func TestC07PurgeRefused(t *testing.T) {
 			c.Ops = append(c.Ops, vh.Op{Kind: "plan", Cert: -1, Plan: []vh.FaultRule{{Index: -1, Code: vh.CodeRemove, Kind: "fail", Remaining: -1}}})
 			n := rapid.IntRange(1, 6).Draw(t, "n")
 			for i := 0; i < n; i++ {
-				k := rapid.SampledFrom([]string{"signers", "signers", "sign", "sign", "signvia", "list"}).Draw(t, fmt.Sprintf("op%d", i))
+				k := rapid.SampledFrom([]string{"signers", "signers", "sign", "sign", "signvia", "signheld", "list"}).Draw(t, fmt.Sprintf("op%d", i))
 				op := vh.Op{Kind: k, Cert: -1}
-				if k == "sign" || k == "signvia" {
+				if k == "sign" || k == "signvia" || k == "signheld" {
 					op.Cert = rapid.IntRange(0, len(c.Certs)-1).Draw(t, fmt.Sprintf("target%d", i))
 					op.Data = []byte(fmt.Sprintf("data %d", i))
 				}
@@ -142,4 +142,46 @@ func TestC07Lapse(t *testing.T) {
 	vh.Run(t, vh.Spec[vh.ShimCase]{Property: "C07", Name: "TestC07Lapse",
 		Rule: "short histories (<= 12 operations) in which one certificate has ValidBefore = start + 2 s and lapse steps are frequent; same oracle",
 		Gen:  func(t *rapid.T) vh.ShimCase { return vh.GenShimCase(t, pr) }, Exec: exec})
+}
+
+// TestC07HeldSigner: the caller keeps what Signers() returned while a certificate was still valid and
+// asks one of those signers for a signature after the certificate has lapsed, with no other call on
+// the shim agent in between. "A signing request naming a purged certificate fails" - through whatever
+// handle the request is made.
+func TestC07HeldSigner(t *testing.T) {
+	vh.Run(t, vh.Spec[vh.ShimCase]{Property: "C07", Name: "TestC07HeldSigner", Journal: true,
+		Rule: "one certificate with ValidBefore = start + 2 s over a drawn key, held by the underlying agent (with its key) or as an in-memory hardware certificate, beside 0..2 current certificates; operations: signers (the caller keeps the result), 0..2 calls that do not look at the identities (raw forward), the lapse, then a signature through the kept signer of the lapsed certificate, a listing, and a signature through the kept signer of a current certificate; both upstream modes, every listing order. Oracle: the shim reference model (the lapsed certificate's signer is refused, the current one signs, the listing is free of the lapsed certificate). Non-trivial: a kept signer was used.",
+		Gen: func(t *rapid.T) vh.ShimCase {
+			c := vh.ShimCase{NoUpstream: rapid.Bool().Draw(t, "noUpstream"), Comp: rapid.SampledFrom([]string{"", "", "bytes", "type"}).Draw(t, "comp")}
+			keys := rapid.Permutation(vh.SSHKeyNames).Draw(t, "keys")
+			c.Certs = []vh.CertDef{{Key: keys[0], KeyIDClass: rapid.SampledFrom([]string{"text", "text", "ysshca1", "empty"}).Draw(t, "kid0"), Validity: "lapsing", Serial: 1000}}
+			n := rapid.IntRange(0, 2).Draw(t, "ncurrent")
+			for i := 0; i < n; i++ {
+				c.Certs = append(c.Certs, vh.CertDef{Key: keys[1+i], KeyIDClass: "text", Validity: rapid.SampledFrom([]string{"current", "forever"}).Draw(t, fmt.Sprintf("val%d", i)), Serial: uint64(1001 + i)})
+			}
+			inMemory := rapid.Bool().Draw(t, "inMemory")
+			for i := range c.Certs {
+				if i == 0 && inMemory {
+					c.Initial = append(c.Initial, vh.Op{Kind: "oobadd", Key: c.Certs[0].Key, Cert: -1, Comment: "token key"})
+					continue
+				}
+				c.Initial = append(c.Initial, vh.Op{Kind: "oobaddcert", Cert: i, Comment: "held upstream"})
+			}
+			if inMemory {
+				c.Ops = append(c.Ops, vh.Op{Kind: "addhard", Cert: 0, Comment: "hw"})
+			}
+			c.Ops = append(c.Ops, vh.Op{Kind: "signers", Cert: -1})
+			for i, k := 0, rapid.IntRange(0, 2).Draw(t, "nforward"); i < k; i++ {
+				c.Ops = append(c.Ops, vh.Op{Kind: "forward", Cert: -1, Body: []byte{200, byte(i)}})
+			}
+			c.Ops = append(c.Ops, vh.Op{Kind: "lapse", Cert: -1}, vh.Op{Kind: "signheld", Cert: 0, Data: []byte("after the lapse")}, vh.Op{Kind: "list", Cert: -1})
+			if n > 0 {
+				c.Ops = append(c.Ops, vh.Op{Kind: "signheld", Cert: 1, Data: []byte("still valid")})
+			}
+			return c
+		},
+		Exec: func(c vh.ShimCase) (vh.Outcome, error) {
+			tr, err := vh.RunShimCase(c)
+			return vh.Outcome{NonTrivial: tr.HeldSigner > 0, Classes: []string{fmt.Sprintf("noUpstream=%v", c.NoUpstream), fmt.Sprintf("held-signer-used=%d", tr.HeldSigner)}}, err
+		}})
 }
